@@ -94,6 +94,7 @@ type Report struct {
 	Notes          []string           `json:"notes,omitempty"`
 	SolverErrors   []string           `json:"solver_errors,omitempty"`
 	Bounds         map[string]string  `json:"bounds,omitempty"`
+	Emits          []string           `json:"emits,omitempty"`
 }
 
 type Engine struct {
